@@ -132,6 +132,7 @@ package sm2
 //@   (uses "big" "big:axioms")
 //@   (requires init (sm2init))
 //@   (fresh result)
+//@   (ensures digits (bvsle (len result) 257))
 //@   (loop 1
 //@     (invariant nat (>= (bigval k) 0))
 //@     (invariant range (and (bvsle 0 length) (bvsle 0 pos)))
@@ -142,10 +143,17 @@ package sm2
 //@   (requires init (sm2init))
 //@   (requires nn (and (not (isnil xOut)) (not (isnil yOut)) (not (isnil zOut)) (not (isnil scalar))))
 //@   (modifies (object xOut) (object yOut) (object zOut)))
+// The pending-doublings counter (zeroes) counts a run of zero digits: it never exceeds the digit index, so it cannot
+// wrap for the at most 257 digits a reduced scalar has.
 //@ (func sm2P256ScalarMult autoloops
 //@   (requires init (sm2init))
 //@   (requires nn (and (not (isnil xOut)) (not (isnil yOut)) (not (isnil zOut)) (not (isnil x)) (not (isnil y))))
-//@   (modifies (object xOut) (object yOut) (object zOut)))
+//@   (requires digits (bvsle (len scalar) 257))
+//@   (modifies (object xOut) (object yOut) (object zOut))
+//@   (loop 5
+//@     (invariant range (and (bvsle 0 i) (bvsle i (len scalar))))
+//@     (invariant zrun (and (bvsle 0 zeroes) (bvsle (sext zeroes 64) i)))
+//@     (decreases (bvsub (len scalar) i))))
 //@ (func sm2P256PointToAffine
 //@   (requires init (sm2init))
 //@   (requires nn (and (not (isnil xOut)) (not (isnil yOut)) (not (isnil x)) (not (isnil y)) (not (isnil z))))
@@ -196,3 +204,37 @@ package sm2
 //@   (fresh result.0)
 //@   (fresh result.1)
 //@   (ensures range (and (inrange result.0) (inrange result.1))))
+
+// ---- keys, hashing to integers, signatures (sm2.go) --------------------------------------------------------------------
+// A public key is well formed when its Curve and coordinates are present; the curve is any elliptic.Curve value
+// (interface contract in /verif/specs/extern.contracts: abstract group ec.* indexed by the dynamic type).
+//@ (defmacro wfpub (p) (and (not (isnil p)) (not (isnil (field p Curve))) (not (isnil (field p X))) (not (isnil (field p Y)))))
+//@ (defmacro wfpriv (k) (and (not (isnil k)) (not (isnil (field k PublicKey Curve))) (not (isnil (field k PublicKey X)))
+//@                           (not (isnil (field k PublicKey Y))) (not (isnil (field k D)))))
+//@ (defmacro consts () (and (not (isnil (global "sm2.one"))) (= (bigval (global "sm2.one")) 1)
+//@                          (not (isnil (global "sm2.two"))) (= (bigval (global "sm2.two")) 2)
+//@                          (= (len (global "sm2.default_uid")) 16) (not (isnil (global "sm2.errZeroParam")))))
+//@ (func zeroByteSlice
+//@   (fresh result)
+//@   (ensures len (and (= (len result) 32) (= (cap result) 32) (= (off result) 0)))
+//@   (ensures zero (forall ((j B64)) (=> (bvult j 32) (= (select (row result) j) #x00)))))
+//@ (func bigTo32Bytes
+//@   (uses "big" "big:axioms")
+//@   (requires nn (not (isnil x)))
+//@   (ensures len (=> (and (<= 0 (bigval x)) (< (bigval x) 115792089237316195423570985008687907853269984665640564039457584007913129639936)) (= (len result) 32))))
+// ZA and msgHash feed byte strings to sm3 (whose hash.Hash behaviour is proved under C04); their contracts are
+// trusted here: only lengths and non-nil results are used by the callers' contracts.
+//@ (func ZA trusted
+//@   (requires init (sm2init))
+//@   (requires key (wfpub pub))
+//@   (ensures len (=> (isnil result.1) (= (len result.0) 32)))
+//@   (ensures big (= (isnil result.1) (bvslt (len uid) 8192))))
+//@ (func msgHash trusted
+//@   (fresh result.0)
+//@   (ensures ok (and (isnil result.1) (not (isnil result.0)) (>= (bigval result.0) 0))))
+//@ (func randFieldElement
+//@   (uses "ec" "big" "big:axioms")
+//@   (requires curve (not (isnil c)))
+//@   (requires consts (consts))
+//@   (fresh k)
+//@   (ensures range (=> (isnil err) (and (not (isnil k)) (<= 1 (bigval k)) (<= (bigval k) (- (ec.n (tag c)) 1))))))
